@@ -837,7 +837,7 @@ def ev_tree(ident: int, c: Case) -> dict:
             t3 = None
         e['fresh'] = 'T' if (abstract_tree(t3) if t3 is not None else {'k': 'none'}) == e['tree'] else 'F'
         _FRESH_COUNT[0] += 1
-        if _FRESH_COUNT[0] % 4000 == 0:      # (the memo keeps every handler set alive: bound its growth)
+        if _FRESH_COUNT[0] % 1000 == 0:      # (the memo keeps every handler set alive: bound its growth)
             try:
                 make_converter.cache.clear()
             except Exception:  # noqa
